@@ -272,6 +272,10 @@ pub open spec fn regp_cv<T: EnumI64 + WithPrivateRange>(l: RegisteredLabelWithPr
         RegisteredLabelWithPrivate::Text(t) => CV::Text(t@),
     }
 }
+/// RFC 7049 section 3.9 order on encodings: shorter first, then bytewise
+pub open spec fn len_first_bytes_cmp(a: Seq<u8>, b: Seq<u8>) -> Ordering {
+    if a.len() != b.len() { int_cmp(a.len() as int, b.len() as int) } else { lex_cmp(a, b) }
+}
 pub open spec fn label_cmp(a: Label, b: Label) -> Ordering {
     match (a, b) {
         (Label::Int(x), Label::Int(y)) => int_cmp(rank(x), rank(y)),
@@ -370,7 +374,9 @@ impl Label {
     /// # Panics
     ///
     /// Panics if either `Label` fails to serialize.
-    pub fn cmp_canonical(&self, other: &Self) -> Ordering {
+    pub fn cmp_canonical(&self, other: &Self) ->« (r:» Ordering«)
+        ensures r == len_first_bytes_cmp(crate::vprelude::enc(label_cv(*self)), crate::vprelude::enc(label_cv(*other))),» {«
+        broadcast use axiom_derived_clone_label;»
         let encoded_self = self.clone().to_vec().unwrap(); /* safe: documented */
         let encoded_other = other.clone().to_vec().unwrap(); /* safe: documented */
         if encoded_self.len() != encoded_other.len() {
@@ -378,7 +384,7 @@ impl Label {
             encoded_self.len().cmp(&encoded_other.len())
         } else {
             // Both encode to the same length, sort lexicographically on encoded form.
-            encoded_self.cmp(&encoded_other)
+            crate::vprelude::bytes_cmp(&encoded_self, &encoded_other)
         }
     }
 }
